@@ -32,6 +32,7 @@ import (
 
 	"go.uber.org/zap"
 	"google.golang.org/protobuf/proto"
+	"google.golang.org/protobuf/types/known/timestamppb"
 
 	"github.com/ozontech/seq-db/consts"
 	"github.com/ozontech/seq-db/frac"
@@ -42,6 +43,7 @@ import (
 	"github.com/ozontech/seq-db/metric/stopwatch"
 	"github.com/ozontech/seq-db/node"
 	"github.com/ozontech/seq-db/parser"
+	"github.com/ozontech/seq-db/proxyapi"
 	pbstore "github.com/ozontech/seq-db/pkg/storeapi"
 	psearch "github.com/ozontech/seq-db/proxy/search"
 	"github.com/ozontech/seq-db/seq"
@@ -696,6 +698,165 @@ func replayCodec(line string, rep *vh.Report, orc *vh.Oracle) {
 		rep.Violate(vh.Violation{Site: "seq/qpr.go:AggregatableSamples.UnmarshalJSON", Class: "partial-result-changed-by-json",
 			What: fmt.Sprintf("before %s after %s", direct, v), Replay: []string{line}})
 	}
+}
+
+
+// ------------------------------------------------------------------ channel codec.fields
+
+func fmtPBHist(h *pbstore.SearchResponse_Histogram) string {
+	return fmt.Sprintf("%s/%s/%s/%d/%d/%s", fnum(h.Min), fnum(h.Max), fnum(h.Sum), h.Total, h.NotExists, fnums(h.Samples))
+}
+
+type tsRow struct {
+	sec   int64
+	nanos int32
+	key   string
+	s     string
+}
+
+func sortRows(rows []tsRow) []string {
+	sort.Slice(rows, func(i, j int) bool {
+		a, b := rows[i], rows[j]
+		if a.sec != b.sec {
+			return a.sec < b.sec
+		}
+		if a.nanos != b.nanos {
+			return a.nanos < b.nanos
+		}
+		return a.key < b.key
+	})
+	var ss []string
+	for _, r := range rows {
+		ss = append(ss, r.s)
+	}
+	return ss
+}
+
+// the MIDs that matter for the unit conversions: no time, sub-second, whole seconds, around 2^63 and 2^64
+var codecMids = []uint64{0, 1, 999, 1000, 1001, 10, 20, 1758800000000, 1758800000123, 1758800060999,
+	9223372036854, 9223372036855, 1 << 62, 1<<63 - 1, 1 << 63, 1<<63 + 1500, 1<<64 - 1000, 1<<64 - 1}
+
+// codecFieldsChannel compares the OUTPUT of every conversion field by field with the model (not only the round trip):
+// buildSearchResponse (Label, Ts.Seconds, Ts.Nanos, container fields, NotExists), responseToQPR on arbitrary
+// timestamps (sub-millisecond nanos, negative / overflowing nanos, duplicate keys), makeProtoAggregation (key,
+// value, quantiles, NaN, NotExists, optional Ts, bucket order) and makeProtoHistogram (DocCount, Ts).
+func codecFieldsChannel(o vh.Opts, rng *vh.RNG) *vh.Channel {
+	ch := vh.NewChannel("codec.fields", "field-by-field outputs of storeapi.buildSearchResponse, proxy/search.responseToQPR, proxyapi.makeProtoAggregation and makeProtoHistogram vs SV.Agg.buildAgg / aggToAS / makeProtoAggregation / makeProtoHistogram (timestamps as (seconds, nanos)); non-trivial = a bin or bucket with a sub-second or >= 2^63 MID")
+	for i := o.Pick(300, 4000); i > 0; i-- {
+		a := &seq.AggregatableSamples{NotExists: int64(rng.Intn(5)), SamplesByBin: map[seq.AggBin]*seq.SamplesContainer{}}
+		nt := false
+		for j := rng.Intn(6); j > 0; j-- {
+			m := codecMids[rng.Intn(len(codecMids))]
+			a.SamplesByBin[seq.AggBin{MID: seq.MID(m), Token: binTokens[rng.Intn(len(binTokens))]}] = genSC(rng, true, rng.Bool())
+			nt = nt || m%1000 != 0 || m >= 1<<63
+		}
+		asStr := fmtAS(a, false)
+		// buildSearchResponse
+		func() {
+			var ans string
+			defer func() {
+				if e := recover(); e != nil {
+					ans = fmt.Sprintf("panic %v", e)
+				}
+				ch.Add("pb.build "+asStr, ans, nt, "conv=buildSearchResponse")
+			}()
+			resp := storesvc.VerifC06BuildSearchResponse(&seq.QPR{Aggs: []seq.AggregatableSamples{*cloneAS(a)}})
+			var rows []tsRow
+			for _, b := range resp.Aggs[0].Timeseries {
+				rows = append(rows, tsRow{b.Ts.Seconds, b.Ts.Nanos, b.Label, fmt.Sprintf("%s@%d@%d@%s", b.Label, b.Ts.Seconds, b.Ts.Nanos, fmtPBHist(b.Hist))})
+			}
+			ans = fmt.Sprintf("ok ne=%d ts=%s", resp.Aggs[0].NotExists, vh.JoinStrs(sortRows(rows), ";"))
+		}()
+		// responseToQPR on arbitrary wire content
+		func() {
+			var bins []*pbstore.SearchResponse_Bin
+			var enc []string
+			for j := rng.Intn(5); j > 0; j-- {
+				var sec int64
+				var nanos int32
+				switch rng.Intn(5) {
+				case 0:
+					sec, nanos = int64(rng.Range(-3, 3)), int32(rng.Intn(1000000000))
+				case 1:
+					sec, nanos = 1758800000, int32(rng.Intn(1000))*1000000+int32(rng.Intn(1000000)) // sub-millisecond part is truncated
+				case 2:
+					sec, nanos = int64(rng.Range(-2, 2)), int32(rng.Range(-2000000000, 2000000000)) // outside [0, 1e9): time.Unix normalises
+				case 3:
+					sec, nanos = 0, 0
+				default:
+					ts := timestamppb.New(seq.MID(codecMids[rng.Intn(len(codecMids))]).Time())
+					sec, nanos = ts.Seconds, ts.Nanos
+				}
+				c := genSC(rng, true, false)
+				label := binTokens[rng.Intn(len(binTokens))]
+				bins = append(bins, &pbstore.SearchResponse_Bin{Label: label, Ts: &timestamppb.Timestamp{Seconds: sec, Nanos: nanos},
+					Hist: &pbstore.SearchResponse_Histogram{Min: c.Min, Max: c.Max, Sum: c.Sum, Total: c.Total, NotExists: c.NotExists, Samples: c.Samples}})
+				enc = append(enc, fmt.Sprintf("%s@%d@%d@%s", label, sec, nanos, fmtSC(c, false)))
+			}
+			ne := int64(rng.Intn(4))
+			var ans string
+			defer func() {
+				if e := recover(); e != nil {
+					ans = fmt.Sprintf("panic %v", e)
+				}
+				ch.Add(fmt.Sprintf("pb.toas %d#%s", ne, vh.JoinStrs(enc, ";")), ans, len(bins) > 0, "conv=responseToQPR")
+			}()
+			q := psearch.VerifC06ResponseToQPR(&pbstore.SearchResponse{Aggs: []*pbstore.SearchResponse_Agg{{Timeseries: bins, NotExists: ne}}}, 3)
+			ans = "ok " + fmtAS(&q.Aggs[0], false)
+		}()
+		// makeProtoAggregation
+		func() {
+			fn := fnNames[rng.Intn(len(fnNames))]
+			var qs []quant
+			if fn == "quantile" {
+				for j := rng.Range(1, 3); j > 0; j-- {
+					qs = append(qs, genQ(rng))
+				}
+			}
+			skip := rng.Chance(1, 3)
+			var ans string
+			defer func() {
+				if e := recover(); e != nil {
+					ans = fmt.Sprintf("panic %v", e)
+				}
+				ch.Add(fmt.Sprintf("api.agg %s %s %s %s", fn, fmtQs(qs), vh.B(skip), asStr), ans, nt, "conv=makeProtoAggregation", "fn="+fn)
+			}()
+			src := cloneAS(a)
+			res := src.Aggregate(seq.AggregateArgs{Func: fnOf(fn), Quantiles: qfloats(qs), SkipWithoutTimestamp: skip})
+			api := proxyapi.VerifC06MakeProtoAggregation([]seq.AggregationResult{res})[0]
+			var bs []string
+			for k, b := range api.Buckets {
+				ts := "-"
+				if b.Ts != nil {
+					ts = fmt.Sprintf("%d.%d", b.Ts.Seconds, b.Ts.Nanos)
+				}
+				c := src.SamplesByBin[seq.AggBin{MID: res.Buckets[k].MID, Token: b.Key}]
+				bs = append(bs, fmt.Sprintf("%s@%s@%d@%s@%s", b.Key, fvalue(b.Value, c), b.NotExists, fnums(b.Quantiles), ts))
+			}
+			ans = fmt.Sprintf("ok ne=%d %s", api.NotExists, vh.JoinStrs(bs, ";"))
+		}()
+		// makeProtoHistogram
+		func() {
+			hist := map[seq.MID]uint64{}
+			for j := rng.Intn(5); j > 0; j-- {
+				hist[seq.MID(codecMids[rng.Intn(len(codecMids))])] = uint64(rng.Range(1, 1000))
+			}
+			var ans string
+			defer func() {
+				if e := recover(); e != nil {
+					ans = fmt.Sprintf("panic %v", e)
+				}
+				ch.Add("api.hist "+fmtHist(hist), ans, len(hist) > 1, "conv=makeProtoHistogram")
+			}()
+			api := proxyapi.VerifC06MakeProtoHistogram(&seq.QPR{Histogram: hist})
+			var rows []tsRow
+			for _, b := range api.Buckets {
+				rows = append(rows, tsRow{b.Ts.Seconds, b.Ts.Nanos, fmt.Sprintf("%020d", b.DocCount), fmt.Sprintf("%d@%d@%d", b.DocCount, b.Ts.Seconds, b.Ts.Nanos)})
+			}
+			ans = "ok " + vh.JoinStrs(sortRows(rows), ",")
+		}()
+	}
+	return ch
 }
 
 // ------------------------------------------------------------------ scripted index for processor.IndexSearch
@@ -1881,6 +2042,9 @@ func main() {
 		ch, orc := codecChannel(o, rng.Fork(), rep)
 		rep.AddChannel(ch, o.Driver)
 		rep.AddOracle(orc)
+	}
+	if want("codec.fields") {
+		rep.AddChannel(codecFieldsChannel(o, rng.Fork()), o.Driver)
 	}
 	if want("agg.index") {
 		ch, hch := aggIndexChannel(o, rng.Fork())
